@@ -22,6 +22,7 @@ func NewGroupMutex() *GroupMutex {
 }
 
 func (gm *GroupMutex) LockMutexForGroup(group string) {
+	verifHook("lock", group)
 	mutex := gm.acquireWithRefcountIncrease(group)
 	mutex.Lock()
 }
@@ -31,6 +32,7 @@ func (gm *GroupMutex) ReleaseMutex(group string) {
 	if mutex != nil {
 		mutex.Unlock()
 	}
+	verifHook("released", group)
 }
 
 func (gm *GroupMutex) acquireWithRefcountIncrease(group string) *sync.Mutex {
